@@ -2,13 +2,19 @@
 """prints a markdown table of the seeded changes under /verif/seeded and which checks caught them"""
 import json, glob, os
 rows = []
-for d in sorted(glob.glob(os.path.join(os.path.dirname(os.path.abspath(__file__)), "..", "seeded", "*"))):
+HERE = os.path.dirname(os.path.abspath(__file__))
+HIST = json.load(open(os.path.join(HERE, "..", "seeded", "history.json")))
+for d in sorted(glob.glob(os.path.join(HERE, "..", "seeded", "*"))):
+    if not os.path.isdir(d):
+        continue
     m = json.load(open(os.path.join(d, "meta.json")))
     cr = m.get("check_result", {})
     fired = sorted(set(f.split(" :: ")[0] for f in cr.get("fired", [])))
-    rows.append((m.get("id"), m.get("breaks_property"), (m.get("summary") or "")[:110].replace("|", "/"),
-                 "yes" if cr.get("detected") else ("NO (exit %s)" % cr.get("check_exit")), ", ".join(fired[:3])))
-print("| seed | property | change | detected | by (obligation / bounded check) |")
-print("|---|---|---|---|---|")
+    h = HIST.get(m.get("id"), {})
+    rows.append((m.get("id"), (m.get("summary") or "")[:150].replace("|", "/"), h.get("first_evaluation", "?"),
+                 "yes" if cr.get("detected") else ("NO (exit %s)" % cr.get("check_exit")), ", ".join(fired[:2]),
+                 h.get("note", "")))
+print("| seed | change (first 150 characters of the author's summary) | first evaluation | now | caught by | what was added |")
+print("|---|---|---|---|---|---|")
 for r in rows:
-    print("| %s | %s | %s | %s | %s |" % r)
+    print("| %s | %s | %s | %s | %s | %s |" % r)
